@@ -16,7 +16,7 @@ import lena.flow.cache as cache_mod
 import lena.meta
 
 from ..kernel import RunResult, Boom, summarize
-from ..seams.fs import SimFS, SimOS, ProcessCrash
+from ..seams.fs import SimFS, SimOS, SimGlob, ProcessCrash
 from ..seams.flow import SimSource, ProbeCall, ProbeRun, ProbeFC
 
 PROPERTY = "C18"
@@ -49,7 +49,7 @@ ASSUMPTIONS = [
 FAULT_KINDS = ["write-error-ENOSPC-at-close", "read-error-EIO", "consumer-stop-close", "consumer-stop-drop", "consumer-stop-hold", "raise-downstream",
                "raise-upstream-source", "raise-upstream-element", "drop_cache",
                "recompute", "process-crash"]
-EXPECTED_PROBES = ["write-error-surfaced-loudly", "held-generator-released-before-a-later-run", "other-object-ran-in-between", "downstream-updates-in-place", "source-reuses-one-context-object", "same-object-reused", "split-form-replay", "read-error-surfaced-loudly", "replay-run", "replay-after-interrupted-run", "stop-at-exact-length",
+EXPECTED_PROBES = ["held-run-finished-after-later-runs", "values-hold-one-object-twice", "write-error-surfaced-loudly", "held-generator-released-before-a-later-run", "other-object-ran-in-between", "downstream-updates-in-place", "source-reuses-one-context-object", "same-object-reused", "split-form-replay", "read-error-surfaced-loudly", "replay-run", "replay-after-interrupted-run", "stop-at-exact-length",
                    "two-caches-inner-replay", "hoisted-to-source", "empty-flow-cached",
                    "interrupted-recompute-over-existing-cache", "accumulator-upstream-of-replay"]
 
@@ -60,8 +60,17 @@ def set_tier(t):
     _TIER[0] = t
 
 
+REPEAT = [False]   # set per history: values hold the same string object several times
+
+
 def value(r, i, with_context):
     data = ("v", r, i)
+    if REPEAT[0]:
+        # one string object referred to from several places of the value (as the name of a plot is)
+        s = "plot_%d_%d" % (r, i)
+        if with_context:
+            return (data, {"run": r, "idx": {"i": i}, "name": s, "output": {"filename": s, "alias": [s, s]}})
+        return data + (s, [s, s])
     if with_context:
         return (data, {"run": r, "idx": {"i": i}})
     return data
@@ -100,6 +109,9 @@ def mutated(v):
 def install(fs):
     cache_mod.os = SimOS(fs)
     cache_mod.open = fs.open
+    if hasattr(cache_mod, "glob"):
+        # not imported by lena today; a Cache that looks around with glob sees the simulated tree
+        cache_mod.glob = SimGlob(fs)
     # process-global counters of the module (used for unique temporary file names) start afresh
     # for every simulated history, whatever they are called: a run is a function of its tape only
     for name, val in list(vars(cache_mod).items()):
@@ -141,6 +153,8 @@ def gen_scenario(tape):
     # in place: what the cache stores is the flow as it PASSED the cache
     sc.post_mut = (sc.with_context and not getattr(sc, "shared_ctx", False) and not sc.fc
                    and tape.chance(1, 4, "downstream-updates-in-place"))
+    # values that refer to one object from several places (pickle memoises such objects)
+    sc.repeat = (not getattr(sc, "shared_ctx", False)) and tape.chance(1, 3, "values-hold-one-object-twice")
     # a second pipeline object on the same cache files (another process, another notebook cell)
     sc.two = sc.reuse and sc.form != "split" and tape.chance(1, 2, "two-objects")
     nops = 1 + tape.draw(5, "nops")
@@ -159,6 +173,8 @@ def gen_scenario(tape):
         op.hoist = tape.weighted([(4, "none"), (2, "cache"), (1, "core")], "hoist")
         # generators that an earlier consumer stopped and kept are closed before this operation
         op.release = tape.chance(1, 3, "release-held-generators")
+        # ... or the consumer comes back and takes the rest of its flow
+        op.release_how = tape.choice(["close", "finish"], "release-how") if op.release else "close"
         op.rebuild = True
         if sc.reuse:
             # now and then the object is built anew (a new process); in between it is re-used
@@ -423,6 +439,9 @@ def run(tape):
     sc = gen_scenario(tape)
     fs = SimFS(log)
     install(fs)
+    REPEAT[0] = bool(getattr(sc, "repeat", False))
+    if REPEAT[0]:
+        res.probe("values-hold-one-object-twice")
     # an injected write error that surfaces while an abandoned generator is finalised cannot
     # propagate (CPython reports it as unraisable): it goes to the event log, not to stderr
     old_unraisable = sys.unraisablehook
@@ -455,12 +474,17 @@ def run(tape):
                 log.ev("op", "release-held", len(shared["held"]))
                 res.say("the %d generator(s) kept by earlier consumers are closed" % len(shared["held"]))
                 res.probe("held-generator-released-before-a-later-run")
-                for g in shared["held"]:
+                for g, fin in shared["held"]:
+                    if fin is not None and op.release_how == "finish":
+                        finish_held(sc, g, fin, allowed, res, log)
+                        continue
                     try:
                         g.close()
                     except Exception as e:  # noqa: BLE001
                         log.ev("raise", "release", type(e).__name__)
                 shared["held"] = []
+                if res.violations:
+                    break
             if op.kind == "drop":
                 log.ev("op", "drop_cache", op.target)
                 res.say("drop_cache(cache %d)" % (op.target + 1))
@@ -537,6 +561,17 @@ def run(tape):
                   last_interrupt, interrupted_before)
             if res.violations:
                 break
+            if obs.get("held_new"):
+                # the kept generator may later be consumed to its end when it belongs to a pipeline
+                # object that no other run uses and every state that explains the run so far has
+                # all its caches dumping (then the rest of the flow and what it stores are determined)
+                ms = obs.get("matching") or []
+                # (a generator that was never started decides about dump or replay when it is)
+                if (not sc.reuse and ms and len(obs["out"]) >= 1
+                        and all(e["replay_from"] is None for _, e in ms)
+                        and not obs.get("eio") and not obs.get("enospc")):
+                    g, _ = shared["held"][-1]
+                    shared["held"][-1] = (g, {"exp": ms[0][1], "k": len(obs["out"]), "r": r})
             # bookkeeping for signatures and probes
             if not obs["model_complete"]:
                 if obs.get("enospc") and obs["exc"] == "OSError":
@@ -556,6 +591,37 @@ def run(tape):
     return res
 
 
+def finish_held(sc, g, fin, allowed, res, log):
+    """The consumer of an earlier, stopped run takes the rest of its flow: the run is a complete
+    first run after all (whatever ran in between): it yields the rest of its flow unaltered and
+    stores the flow."""
+    exp, k, r0 = fin["exp"], fin["k"], fin["r"]
+    res.say("the consumer of run %d comes back and takes the rest of its flow" % r0)
+    log.ev("op", "finish-held", r0)
+    res.probe("held-run-finished-after-later-runs")
+    res.nontrivial = True
+    rest = []
+    try:
+        for v in g:
+            rest.append(copy.deepcopy(v) if getattr(sc, "shared_ctx", False) else v)
+            log.ev("out", k + len(rest) - 1, summarize(v))
+    except Exception as e:  # noqa: BLE001
+        log.ev("raise", "finish-held", type(e).__name__, repr(e)[:200])
+        res.viol("C18:Cache:resumed-run:raises-%s" % type(e).__name__,
+                 "run %d, resumed after later operations, raised %r after %d more values (expected "
+                 "the rest of its flow, %d values)" % (r0, e, len(rest), len(exp["full"]) - k))
+        e.__traceback__ = None
+        return
+    if rest != exp["full"][k:]:
+        res.viol("C18:Cache:resumed-run:wrong-values",
+                 "run %d, resumed after later operations, yielded %s, expected %s"
+                 % (r0, _short(rest), _short(exp["full"][k:])))
+        return
+    for c, flow in exp["dumped"].items():
+        # it stores its flow; if a complete cache was there already, keeping that one is as good
+        allowed[c] = [flow] + [p for p in allowed[c] if p is not None and p != flow]
+
+
 def _plain_op(sc):
     op = Op()
     op.kind = "complete"
@@ -570,6 +636,7 @@ def _plain_op(sc):
     op.crash = None
     op.obj = 0
     op.release = False
+    op.release_how = "close"
     return op
 
 
@@ -580,6 +647,7 @@ def execute_run(sc, op, log, r, res, fs, shared=None):
     hoisted = False
     pl = None
     gen = None
+    held_new = False
     try:
         key = ("pl", getattr(op, "obj", 0))
         if shared is not None and sc.reuse and shared.get(key) is not None and not op.rebuild:
@@ -614,7 +682,8 @@ def execute_run(sc, op, log, r, res, fs, shared=None):
                 res.fault("consumer-stop-hold")
                 log.ev("stop", "hold")
                 if shared is not None:
-                    shared.setdefault("held", []).append(gen)
+                    shared.setdefault("held", []).append((gen, None))
+                    held_new = True
             else:
                 res.fault("consumer-stop-drop")
                 log.ev("stop", "drop")
@@ -637,7 +706,8 @@ def execute_run(sc, op, log, r, res, fs, shared=None):
     gen = None
     if any(op.recompute):
         res.fault("recompute")
-    obs = {"out": out, "exc": exc, "exhausted": exhausted, "hoisted": hoisted, "pl": pl}
+    obs = {"out": out, "exc": exc, "exhausted": exhausted, "hoisted": hoisted, "pl": pl,
+           "held_new": held_new}
     log.ev("run-end", r, len(out), exc, exhausted)
     return obs
 
@@ -689,6 +759,7 @@ def judge(sc, op, r, obs, allowed, res, fs, ops_before, last_interrupt, interrup
         for c in range(sc.ncaches):
             allowed[c] = new_allowed[c]
         return
+    obs["matching"] = matching
     if matching:
         # probes
         for combo, exp in matching:
